@@ -288,6 +288,48 @@ Section Checks.
   Qed.
 End Checks.
 
+(* ------------------------------------------------------------------ strings.Split *)
+(* a string in which the separator does not occur is returned as the single piece *)
+
+Lemma str_app_nil_r s : s ++ "" = s.
+Proof. induction s; simpl; congruence. Qed.
+
+Lemma str_app_assoc a b c : (a ++ b) ++ c = a ++ (b ++ c).
+Proof. induction a; simpl; congruence. Qed.
+
+Lemma prefix_exists p : forall s, String.prefix p s = true <-> exists b, s = p ++ b.
+Proof.
+  induction p as [|c p IH]; intros s; simpl.
+  - split; [intros _; exists s; reflexivity | intros _; destruct s; reflexivity].
+  - destruct s as [|c' s']; [split; [discriminate | intros [b H]; discriminate]|].
+    simpl. destruct (ascii_dec c c') as [E|Hne].
+    + subst c'. rewrite IH. split; intros [b H]; exists b; [subst; reflexivity | inversion H; reflexivity].
+    + split; [discriminate | intros [b H]; inversion H; congruence].
+Qed.
+
+Definition occurs (sep s : string) : Prop := exists a b, s = a ++ sep ++ b.
+
+Lemma split_go_no_occurrence sep : forall s acc,
+  ~ occurs sep s -> split_go sep 0 acc s = [acc ++ s].
+Proof.
+  induction s as [|c s IH]; intros acc Hno; cbn [split_go].
+  - rewrite str_app_nil_r. reflexivity.
+  - destruct (String.prefix sep (String c s)) eqn:Ep.
+    + exfalso. apply prefix_exists in Ep. destruct Ep as [b Hb]. apply Hno. exists "", b. exact Hb.
+    + rewrite IH.
+      * rewrite str_app_assoc. reflexivity.
+      * intros [a [b H]]. apply Hno. exists (String c a), b. simpl. rewrite H. reflexivity.
+Qed.
+
+Lemma split_no_occurrence sep s : ~ occurs sep s -> split s sep = [s].
+Proof. intros H. unfold split. rewrite split_go_no_occurrence by exact H. reflexivity. Qed.
+
+Lemma has_prefix_nonempty s p : p <> "" -> has_prefix s p = true -> s <> "".
+Proof.
+  unfold has_prefix. intros Hp H. apply prefix_exists in H. destruct H as [b ->].
+  destruct p; [contradiction | discriminate].
+Qed.
+
 (* the generated EKU table contains exactly the documented names *)
 Definition documented_eku_names : list string :=
   ["Any"; "ServerAuth"; "ClientAuth"; "CodeSigning"; "EmailProtection"; "IPSECEndSystem";
